@@ -140,8 +140,8 @@ CHECKS = {
     ),
     'C17': dict(
         level='exploration',
-        units=[U('^TestC17$', (8, 8000), (16, 60000))],
-        essential_labels=['relation:equal', 'relation:finer', 'relation:coarser', 'relation:aligned', 'identity', 'scale:1', 'scale:other', 'negative-side', 'variant:exact', 'shape:single-bin', 'shape:two-far-bins', 'source:paginated', 'target:dense', 'target:sparse'],
+        units=[U('^TestC17$', (8, 8000), (16, 60000)), U('^TestC17_ExtremeFanout$', (3, 10), (8, 300))],
+        essential_labels=['relation:equal', 'relation:finer', 'relation:coarser', 'relation:aligned', 'identity', 'scale:1', 'scale:other', 'negative-side', 'variant:exact', 'shape:single-bin', 'shape:two-far-bins', 'source:paginated', 'target:dense', 'target:sparse', 'relation:extreme-fanout', 'fanout>2^20'],
         assumptions=COMMON_ASSUMPTIONS + ["weight tolerance 64*2^-52/min(alpha1,alpha2)*W (each proportion is a ratio of differences of nearly equal bounds)", "values in [1e-4,1e4] and scale in [1e-3,1e3]: well inside both mappings' ranges, as the property requires"],
     ),
     'C18': dict(
